@@ -795,16 +795,18 @@ def itrunc(x):
     return trunc_real(x)
 
 
-def forall(lo, hi, fn):
+def forall(lo, hi, fn, check_empty=True):
     """For all integers j with lo <= j < hi: fn(j).  Dual use: natively a Python all(); symbolically a
-    z3 quantifier whose body also carries the facts assumed while evaluating it (element bounds ...)."""
+    z3 quantifier whose body also carries the facts assumed while evaluating it (element bounds ...).
+    check_empty=False skips the solver query "is the range empty on this path?" (an optimisation only; with
+    quantified facts in the path condition that query tends to run into its time limit)."""
     if isinstance(lo, int) and isinstance(hi, int):
         r = True
         for j in range(lo, hi):
             r = both(r, fn(j))
         return r
     st = cur()
-    if st.capture is None and getattr(st.cfg, "forall_range_check", True):
+    if st.capture is None and check_empty and getattr(st.cfg, "forall_range_check", True):
         # (a shortcut only: an empty range gives a vacuous quantifier anyway; a contract whose path conditions
         # are quantifier-heavy switches it off with `forall_range_check = False` because the check itself is slow)
         if st.qf_refutes(_z(lo) < _z(hi)):
